@@ -132,6 +132,13 @@ func init() {
 			if r.Bool(0.5) {
 				p.DS = []string{"kv"}
 				p.Modes = []int{0, 1, 2}
+			} else if r.Bool(0.4) {
+				// Merge must not make buckets interfere either (lists and
+				// positional sorted-set removals are excluded with Merge: K4, K5)
+				p.DS = []string{"kv", "set", "zset"}
+				p.NoZPop = true
+				p.Merge = 0.15
+				p.Segs = []int64{192, 256}
 			}
 			if tier == "thorough" {
 				p.MaxTx = 45
